@@ -35,7 +35,7 @@ Theorem C08_unsound_criteria_refuted :
 Proof. vm_compute. split; [right; left; reflexivity|intros [H|[]]; discriminate]. Qed.
 Print Assumptions C08_unsound_criteria_refuted.
 
-(* where the soundness of the criteria comes from: if two prefixes of equal length admit the same suffixes, and objectives and
+(* where the soundness of the criteria comes from: if two prefixes of equal length allow the same suffixes, and objectives and
    validity depend on the prefix only through terms in which they are monotone (a prefix at least as good on those terms is at
    least as good, and at least as valid, under EVERY suffix), then those terms are sound criteria and the front is exact *)
 Theorem C08_monotone_terms_exact : forall next valid obj crit n,
